@@ -20,6 +20,7 @@ PINNED = [
     (["D1", "D2"], [S("create", "D2", "exec"), S("create", "CW", "exec"), S("locate"), S("query"), S("create", "D1", "exec"), S("query"), S("setpath", path=["D2", "L"]), S("locate"), S("query"),
                     S("chmod", "D2"), S("locate"), S("query"), S("setpath", path=["M", "E"]), S("locate"), S("query")]),
     (["L", "D2"], [S("create", "D1", "dirn"), S("create", "D2", "nonexec"), S("locate"), S("query"), S("chmod", "D2"), S("locate"), S("query"), S("setpath", path=["D2"]), S("query"), S("delete", "D2"), S("query"), S("locate")]),
+    (["L"], [S("create", "D1", "exec"), S("locate"), S("query"), S("relink"), S("locate"), S("query"), S("create", "D2", "exec"), S("delete", "D1"), S("locate"), S("query"), S("relink"), S("locate"), S("query")]),
     (["E"], [S("create", "CW", "exec"), S("locate"), S("query"), S("setpath", path=["M"]), S("locate"), S("query")]),
 ]
 
@@ -67,6 +68,8 @@ def weighted_histories(n, rng, maxlen=3):
                 else:
                     fs[d] = "absent"
                     steps.append(S("delete", d))
+            elif r < 0.66:
+                steps.append(S("relink"))
             elif r < 0.78:
                 cands = [d for d in fs if fs[d] in ("exec", "nonexec")]
                 if cands:
